@@ -918,6 +918,10 @@ class Evaluator:
             lv = ("sub", base, idx)
             if lv in env:
                 return env[lv]
+            if base[0] == "dict" and base[1] and all(kk[0] != "const" or kk[1] != "**" for kk, _v in base[1]):
+                hit = self._table_lookup(base, idx, ("op", "keyerror", (idx,)))
+                if hit is not None:
+                    return hit
             k = num_value(idx)
             if k is not None and k.denominator == 1:
                 k = int(k)
@@ -1210,6 +1214,20 @@ class Evaluator:
             v = self._e(k.value, env, pc, res)
             kws.append((k.arg if k.arg is not None else "**", v))
         kws.sort(key=lambda kv: kv[0])
+        if f[0] == "attr" and f[2] == "get" and f[1][0] == "dict" and 1 <= len(args) <= 2 and not kws and f[1][1]:
+            hit = self._table_lookup(f[1], args[0], args[1] if len(args) == 2 else NONE)
+            if hit is not None:
+                return hit
+        if f[0] == "ite" and not any(a[0] == "star" for a in args):
+            # the callee is chosen by a case distinction (e.g. looked up in a table of functions): call each alternative
+            # under its condition
+            return self._call_alternatives(f, n, args, kws, env, pc, res)
+        return self._call_with(f, n, args, kws, env, pc, res)
+
+    def _call_with(self, f, n, args, kws, env, pc, res):
+        """The call of the (evaluated) callee term *f* with evaluated arguments."""
+        args = list(args)
+        kws = list(kws)
         fname = show(f)
         # named tuples: canonical positional form
         if f[0] == "sym" and f[1] in self.namedtuples or (f[0] == "attr" and f[2] in self.namedtuples):
@@ -1275,6 +1293,10 @@ class Evaluator:
                 return args[0]
         if fname in ("np.mod", "np.remainder", "numpy.mod", "numpy.remainder") and len(args) == 2 and not kws:
             return self._binop(ast.Mod(), args[0], args[1])
+        if fname in ("np.flipud", "numpy.flipud") and len(args) == 1 and not kws:
+            return ("sub", args[0], ("slice", NONE, NONE, num(-1)))        # flipud(a) is a[::-1]
+        if fname in ("np.flip", "numpy.flip") and len(args) == 1 and dict(kws).get("axis") == ZERO and len(kws) == 1:
+            return ("sub", args[0], ("slice", NONE, NONE, num(-1)))
         if fname in ("np.floor_divide", "numpy.floor_divide") and len(args) == 2 and not kws:
             return self._binop(ast.FloorDiv(), args[0], args[1])
         if fname in ("int", "float") and len(args) == 1 and not kws and is_num(args[0]):
@@ -1454,6 +1476,47 @@ class Evaluator:
             if e.kind in ("call", "store", "raise", "del", "with"):
                 res.events.append(Event(e.kind, e.term, e.node, pc + e.pc, e.extra))
         return r.yields[0][1]
+
+    def _call_alternatives(self, f, n, args, kws, env, pc, res):
+        if f[0] != "ite":
+            if f[0] == "op" and f[1] == "keyerror":
+                return ("op", "never-returns", ())
+            return self._call_with(f, n, args, kws, env, pc, res)
+        c = f[1]
+        a = self._call_alternatives(f[2], n, args, kws, env, pc + tuple(literals(c, True)), res)
+        b = self._call_alternatives(f[3], n, args, kws, env, pc + tuple(literals(c, False)), res)
+        return mk_ite(c, a, b)
+
+    def _table_lookup(self, table, key, default):
+        """`TABLE[key]` / `TABLE.get(key, default)` for a literal dictionary: the entry whose key equals *key* -- decided when the
+        comparison is (constants, enum members under an assumption), a case distinction over the keys otherwise."""
+        out = default
+        decided_all = True
+        picked = None
+        for kk, vv in table[1]:
+            c = cmp("Eq", key, kk)
+            d = self._decide(c)
+            if d is None and self.assume is not None:
+                try:
+                    d = self.assume(("op", "cmp:Is", tuple(sorted((key, kk), key=_key))))
+                except Exception:
+                    d = None
+            if d is True:
+                picked = vv
+                break
+            if d is None:
+                decided_all = False
+        if picked is not None:
+            return picked
+        if decided_all:
+            return default
+        for kk, vv in reversed(table[1]):
+            c = cmp("Eq", key, kk)
+            d = self._decide(c)
+            if d is False:
+                continue
+            out = mk_ite(c, vv, out)
+        return out
 
     def _recv_of(self, n, env, pc):
         return self._e(n.func.value, env, pc, Result())
@@ -1902,12 +1965,42 @@ def module_env(project, modname, ev=None):
             except RecursionError:
                 continue
             # keep only values built from numbers, PI and other constants
+            if v[0] == "dict" and v[1] and _is_constant_table(project.mod(modname).tree, n.targets[0].id, v):
+                env[n.targets[0].id] = v      # a look-up table: a literal dictionary the module never mutates
+                continue
             if v[0] == "dict" or (v[0] in ("list", "op") and (v[0] == "op" or not v[1])):
                 continue   # mutable containers keep their identity (name), not a literal value
             if all(a[0] != "sym" or a == PI for a in atoms_of(v) if a[0] == "sym") and \
                     not any(a[0] in ("call", "lambda") for a in atoms_of(v)):
                 env[n.targets[0].id] = v
     return env
+
+
+def _is_constant_table(tree, name, value):
+    """A module-level dictionary literal used as a look-up table: never stored into, deleted from or mutated by a method
+    anywhere in the module, and built from constants and module-level names (functions, classes, enum members)."""
+    top = set()
+    for n in tree.body:
+        if isinstance(n, (ast.FunctionDef, ast.AsyncFunctionDef, ast.ClassDef)):
+            top.add(n.name)
+        elif isinstance(n, ast.Assign):
+            top |= {t.id for t in n.targets if isinstance(t, ast.Name)}
+        elif isinstance(n, (ast.Import, ast.ImportFrom)):
+            top |= {(a.asname or a.name).split(".")[0] for a in n.names}
+    for n in ast.walk(tree):
+        if isinstance(n, (ast.Subscript, ast.Attribute)) and isinstance(n.value, ast.Name) and n.value.id == name:
+            if isinstance(n, ast.Subscript) and isinstance(n.ctx, (ast.Store, ast.Del)):
+                return False
+            if isinstance(n, ast.Attribute) and n.attr in MUTATORS:
+                return False
+        if isinstance(n, ast.Global) and name in n.names:
+            return False
+    for a in atoms_of(value):
+        if a[0] == "sym" and a != PI and a[1] not in top and a[1] not in ("np", "numpy", "math"):
+            return False
+        if a[0] in ("call", "lambda"):
+            return False
+    return True
 
 
 def _cached_module_env(project, modname):
